@@ -48,6 +48,17 @@ type CheckSpec struct {
 	Bounds      string        `json:"bounds"`
 	Outside     string        `json:"outside"`
 	TimeoutMs   map[string]int `json:"solver_timeout_ms"`
+	Prepare     *PrepareSpec   `json:"prepare"`
+	Level       string         `json:"level"` // evidence level (default model_checking)
+}
+
+// PrepareSpec describes a step run before loading: a command that writes Go files (emitted by the
+// repository's own tools from its current tree, plus a generated harness) into an output directory;
+// sub-directories of it are overlaid onto package directories of /repo.
+type PrepareSpec struct {
+	Cmd       string            `json:"cmd"`       // invoked as: cmd <outdir> <tier>
+	Overlays  map[string]string `json:"overlays"`  // outdir subdir -> /repo relative package dir
+	Harnesses string            `json:"harnesses"` // JSON file (in outdir) with additional harness entries
 }
 
 type KnownFinding struct {
@@ -130,6 +141,7 @@ type Driver struct {
 	buildMu   sync.Mutex
 	start     time.Time
 	budget    time.Duration
+	prepDir   string
 }
 
 type JobAgg struct {
@@ -192,9 +204,52 @@ func goEnv() []string {
 	return append(out, "GOFLAGS=-mod=mod", "GOPROXY=off", "GOWORK=off")
 }
 
+func (d *Driver) prepare(ov map[string][]byte, files map[string]string) error {
+	p := d.spec.Prepare
+	if p == nil {
+		return nil
+	}
+	dir, err := os.MkdirTemp("", "gosx-prepare-")
+	if err != nil {
+		return err
+	}
+	d.prepDir = dir
+	out, err := execOutput(p.Cmd, dir, d.tier)
+	if err != nil {
+		return fmt.Errorf("prepare step failed: %v\n%s", err, trunc(out, 3000))
+	}
+	for sub, rel := range p.Overlays {
+		matches, _ := filepath.Glob(filepath.Join(dir, sub, "*.go"))
+		for _, m := range matches {
+			data, err := os.ReadFile(m)
+			if err != nil {
+				return err
+			}
+			virt := filepath.Join(repoDir, rel, filepath.Base(m))
+			ov[virt] = data
+			files[virt] = m
+		}
+	}
+	if p.Harnesses != "" {
+		data, err := os.ReadFile(filepath.Join(dir, p.Harnesses))
+		if err != nil {
+			return err
+		}
+		var hs []HarnessSpec
+		if err := json.Unmarshal(data, &hs); err != nil {
+			return err
+		}
+		d.spec.Harnesses = append(d.spec.Harnesses, hs...)
+	}
+	return nil
+}
+
 func (d *Driver) load() error {
 	ov, files, err := harnessOverlay(d.spec.Property)
 	if err != nil {
+		return err
+	}
+	if err := d.prepare(ov, files); err != nil {
 		return err
 	}
 	d.overlay, d.ovFiles = ov, files
@@ -429,6 +484,7 @@ func (d *Driver) worker(id int) {
 	d.stats.Unknown += st.Unknown
 	d.stats.SolverNs += st.SolverNs
 	d.stats.Instrs += st.Instrs
+	d.stats.Asserts += st.Asserts
 	d.stats.Errors = append(d.stats.Errors, st.Errors...)
 	for f := range st.FuncsSeen {
 		d.funcsSeen[f] = true
